@@ -107,6 +107,7 @@ func TestC05(t *testing.T) {
 	if r.Only < 0 {
 		tamper(t, r, tmp)
 		crashTemporaries(t, r, tmp)
+		cacheCreation(t, r, tmp)
 		longLivedHandle(t, r, tmp)
 		clientCacheModes(t, r, tmp)
 	}
@@ -440,7 +441,8 @@ func crashTemporaries(t *testing.T, r *evid.Run, tmp string) {
 		os.MkdirAll(dir, 0o700)
 		os.WriteFile(filepath.Join(dir, "db"), base, 0o600)
 		spec, _ := json.Marshal(map[string]any{"path": filepath.Join(dir, "db"), "key": "c05-crash", "op": ops.Op{Kind: ops.Put, Name: name, Value: v2}})
-		res, err := sysfault.Run([]string{child, string(spec)}, append(os.Environ(), "GOMAXPROCS=2"), dir, fault, crashenum.Timeout)
+		// the child runs under the usual umask 022: what the code asks for at creation is what protects the file
+		res, err := sysfault.Run([]string{child, string(spec)}, append(os.Environ(), "GOMAXPROCS=2", "VERIF_UMASK=022"), dir, fault, crashenum.Timeout)
 		if err != nil {
 			return nil
 		}
@@ -449,6 +451,22 @@ func crashTemporaries(t *testing.T, r *evid.Run, tmp string) {
 	res := run(filepath.Join(tmp, "crash0"), sysfault.Fault{})
 	if res == nil || !res.SawEnd {
 		t.Fatalf("crash temporaries: fault-free pass failed")
+	}
+	// every file the save creates is created owner-only (observed at the system-call boundary)
+	creates := 0
+	for _, ev := range res.Events {
+		if (ev.Name == "openat" || ev.Name == "open" || ev.Name == "creat") && ev.Flags&syscall.O_CREAT != 0 {
+			creates++
+			r.Eval(1)
+			r.Count("creating_open_calls_observed", 1)
+			r.Distinct(fmt.Sprintf("create mode %o", ev.Mode&0o777))
+			if eff := ev.Mode & 0o777 &^ 0o022; eff&0o077 != 0 {
+				r.Violation("created-readable-by-others", -1, fmt.Sprintf("the save creates %s with mode %o (effective %o under umask 022): readable by others while it is being written", filepath.Base(ev.Path), ev.Mode&0o777, eff), nil)
+			}
+		}
+	}
+	if creates == 0 {
+		r.Inconclusive("crash temporaries: no creating open call observed during a save")
 	}
 	for _, ev := range res.Events {
 		for _, kind := range []sysfault.FaultKind{sysfault.KillBefore, sysfault.KillAfter} {
@@ -468,11 +486,73 @@ func crashTemporaries(t *testing.T, r *evid.Run, tmp string) {
 				if hit, ok := f.Find(fl.Data); ok {
 					r.Violation("plaintext-in-temporary", -1, fmt.Sprintf("after %s at %s the file %s contains %s", kind, ev, filepath.Base(fl.Path), hit), nil)
 				}
-				if fl.Mode.Perm()&0o077 != 0 && filepath.Base(fl.Path) == "db" {
-					r.Violation("mode-database", -1, fmt.Sprintf("after %s at %s the database has mode %o", kind, ev, fl.Mode.Perm()), nil)
+				if fl.Mode.Perm()&0o077 != 0 {
+					r.Violation("mode-after-crash", -1, fmt.Sprintf("after %s at %s the file %s is left with mode %o (umask 022)", kind, ev, filepath.Base(fl.Path), fl.Mode.Perm()), nil)
 				}
 			}
 		}
+	}
+}
+
+// cacheCreation: the client's cache file holds secret values; every file a cache write creates is created
+// owner-only, and whatever a killed write leaves behind is owner-only too (child under umask 022).
+func cacheCreation(t *testing.T, r *evid.Run, tmp string) {
+	child, err := crashenum.BuildChild(tmp, "./cmd/cachechild")
+	if err != nil {
+		t.Fatal(err)
+	}
+	docPath := filepath.Join(tmp, "cache-new.json")
+	os.WriteFile(docPath, []byte(`{"s":{"secret":{"Value":"c2VjcmV0LXZhbHVl","Version":2},"lastAccess":"0"}}`), 0o600)
+	for _, pre := range []bool{false, true} {
+		run := func(dir string, fault sysfault.Fault) *sysfault.Result {
+			os.RemoveAll(dir)
+			os.MkdirAll(dir, 0o700)
+			if pre {
+				os.WriteFile(filepath.Join(dir, "cache.json"), []byte(`{"s":{"secret":{"Value":"b2xk","Version":1},"lastAccess":"0"}}`), 0o600)
+			}
+			res, err := sysfault.Run([]string{child, filepath.Join(dir, "cache.json"), docPath}, append(os.Environ(), "GOMAXPROCS=2", "VERIF_UMASK=022"), dir, fault, crashenum.Timeout)
+			if err != nil {
+				return nil
+			}
+			return res
+		}
+		res := run(filepath.Join(tmp, "cc0"), sysfault.Fault{})
+		if res == nil || !res.SawEnd {
+			t.Fatalf("cache creation: fault-free pass failed")
+		}
+		creates := 0
+		for _, ev := range res.Events {
+			if (ev.Name == "openat" || ev.Name == "open" || ev.Name == "creat") && ev.Flags&syscall.O_CREAT != 0 {
+				creates++
+				r.Eval(1)
+				r.Count("creating_open_calls_observed", 1)
+				r.Distinct(fmt.Sprintf("cache create mode %o", ev.Mode&0o777))
+				if eff := ev.Mode & 0o777 &^ 0o022; eff&0o077 != 0 {
+					r.Violation("cache-created-readable-by-others", -1, fmt.Sprintf("the cache write creates %s with mode %o (effective %o under umask 022)", filepath.Base(ev.Path), ev.Mode&0o777, eff), nil)
+				}
+			}
+		}
+		if creates == 0 {
+			r.Inconclusive("cache creation: no creating open call observed during a cache write")
+		}
+		for _, ev := range res.Events {
+			for _, kind := range []sysfault.FaultKind{sysfault.KillBefore, sysfault.KillAfter} {
+				dir := filepath.Join(tmp, "ccN")
+				if rr := run(dir, sysfault.Fault{Kind: kind, At: ev.Idx}); rr == nil || !rr.FaultFired {
+					r.Inconclusive("cache creation: fault point not reached")
+					continue
+				}
+				r.Eval(1)
+				r.Count("cache_crash_point_scans", 1)
+				files, _ := scan.Files(dir)
+				for _, fl := range files {
+					if fl.Mode.Perm()&0o077 != 0 {
+						r.Violation("cache-mode-after-crash", -1, fmt.Sprintf("after %s at %s the file %s is left with mode %o (umask 022)", kind, ev, filepath.Base(fl.Path), fl.Mode.Perm()), nil)
+					}
+				}
+			}
+		}
+		r.Distinct(fmt.Sprintf("cache creation pre-existing=%t", pre))
 	}
 }
 
